@@ -296,3 +296,73 @@ func (c *Ctx) ruleConsumeTagRange(rule string, pkgs []string, floor int) {
 		}
 	}
 }
+
+// R-REFL-ERR-SKIP: the reflection decoder (package proto) treats the errUnknown
+// answer of a field decoder as "unknown record: skip it" and returns every
+// other error. A skip (protowire.ConsumeFieldValue) performed under a weaker
+// condition than `err == errUnknown` swallows real decode errors (invalid
+// UTF-8 in a map key or value becomes the empty string).
+func (c *Ctx) ruleReflErrSkip(rule string, floor int) {
+	R, P := c.R, c.P
+	R.Rule(rule, "in the reflection decoder's tag loops every skip of a record (protowire.ConsumeFieldValue) after a field decoder ran is on the true edge of `err == errUnknown`, and the decoder's error is returned otherwise", floor)
+	for _, fi := range P.FuncsIn("proto") {
+		if fi.Decl.Body == nil {
+			continue
+		}
+		info := fi.Info()
+		// err variable assigned from an UnmarshalOptions.unmarshal* call
+		var errObj types.Object
+		walk(fi.Decl.Body, func(n ast.Node) bool {
+			as, ok := n.(*ast.AssignStmt)
+			if !ok || len(as.Rhs) != 1 || len(as.Lhs) < 2 {
+				return true
+			}
+			call, ok := as.Rhs[0].(*ast.CallExpr)
+			if !ok || !strings.HasPrefix(calleeKey(info, call), "proto.UnmarshalOptions.unmarshal") {
+				return true
+			}
+			if id, ok := as.Lhs[len(as.Lhs)-1].(*ast.Ident); ok && id.Name != "_" {
+				o := info.Defs[id]
+				if o == nil {
+					o = info.Uses[id]
+				}
+				if o != nil && o.Type().String() == "error" {
+					errObj = o
+				}
+			}
+			return true
+		})
+		if errObj == nil {
+			continue
+		}
+		skips := allCalls(info, fi.Decl.Body, "encoding/protowire.ConsumeFieldValue")
+		if len(skips) == 0 {
+			continue
+		}
+		g := fi.CFG()
+		for i, sk := range skips {
+			good := g.DominatedByCond(sk, func(core ast.Expr, val bool) bool {
+				be, ok := unparen(core).(*ast.BinaryExpr)
+				if !ok || objOf(info, be.X) != errObj {
+					return false
+				}
+				nm, isVar := unparen(be.Y).(*ast.Ident)
+				if !isVar || nm.Name != "errUnknown" {
+					return false
+				}
+				return (be.Op == token.EQL && val) || (be.Op == token.NEQ && !val)
+			})
+			R.Check(good, rule, fi.Key+" skip#"+itoa(i+1), P.Pos(sk), "record skipped only when err == errUnknown", "a record is skipped without having established `err == errUnknown`: genuine decode errors of the field (invalid UTF-8, malformed nested data) are swallowed and the field is silently dropped or zeroed")
+		}
+		returned := false
+		walk(fi.Decl.Body, func(n ast.Node) bool {
+			if rs, ok := n.(*ast.ReturnStmt); ok && len(rs.Results) > 0 {
+				if id, ok := unparen(rs.Results[len(rs.Results)-1]).(*ast.Ident); ok && info.Uses[id] == errObj {
+					returned = true
+				}
+			}
+			return true
+		})
+		R.Check(returned, rule, fi.Key+" error returned", P.Pos(fi.Decl), "the field decoder's error is returned", "the field decoder's error is never returned by this loop")
+	}
+}
